@@ -87,6 +87,13 @@ def select__child_axis(self: XPathAxis, context: ta.ContextType = None) \
         -> Iterator[ta.ItemType]:
     if context is None:
         raise self.missing_context()
+    elif context.axis is None and context.item is context.document \
+            and context.root is not context.document and context.root is not None:
+        # the dummy document of an Element root: its only child is the root element
+        # (iter_children_or_self yields it without moving the context item)
+        context.item, context.axis = context.root, 'child'
+        yield from self[0].select(context)
+        context.item, context.axis = context.document, None
     else:
         for _ in context.iter_children_or_self():
             yield from self[0].select(context)
